@@ -1,0 +1,16 @@
+//go:build verif
+
+// Contracts for package dag (compiled only with -tags=verif; checked by /verif/bin/govc).
+package dag
+
+//@ func (*DirectedTargetGraph).GetDependencies(g, target) (r)
+//@   pure
+//@   ensures [in_edges] r == g.inEdges[labelOf(target)]
+
+//@ func (*DirectedTargetGraph).GetDependants(g, target) (r)
+//@   pure
+//@   ensures [out_edges] r == g.outEdges[labelOf(target)]
+
+//@ func (*DirectedTargetGraph).GetNodes(g) (r)
+//@   pure
+//@   ensures [field] r == g.nodes
